@@ -21,7 +21,8 @@ PINNED = ["C19_pratt", "C19_pratt_std", "C19_pow", "C19_int", "C19_classify", "C
           "C19_render_parse", "C19_render_parse_fuel", "C19_render_line", "C19_render_value", "C19_dec_literal",
           "C19_is_arithmetic_is_source_regex", "C19_arith_matchers_are_source_regexes",
           "C19_peg_is_hand_parser", "C19_peg_fuel_suffices", "C19_peg_nofuel", "C19_peg_render_parse",
-          "C19_float_structure", "C19_float_structure_all", "C19_float_literals"]
+          "C19_float_structure", "C19_float_structure_all", "C19_float_literals",
+          "C19_grammar_wf", "C19_peg_fuel_adequate"]
 TRUSTED = [
     "Coq 8.16.1 kernel (coqc; coqchk in thorough); vm_compute only in Example witnesses and the gen_is_expected pins",
     "hand transcription of tools::is_arithmetic (three matchers written against the regex literals pinned by "
